@@ -405,9 +405,16 @@ async fn subscribe(
         .unwrap_or(false);
     let wb_unsub = wb.clone();
 
-    let (mut rx, _) = wb
+    let (mut rx, _) = match wb
         .subscribe(client_id, transaction_id, key, unique, live_only)
-        .await?;
+        .await
+    {
+        Ok(it) => it,
+        Err(e) => {
+            wb.disconnected(client_id, Some(remote_addr)).await.ok();
+            return Err(e);
+        }
+    };
     let (sse_tx, sse_rx) = mpsc::channel(100);
 
     // TODO listen for shutdown requests
@@ -478,9 +485,16 @@ async fn psubscribe(
         .unwrap_or(false);
     let wb_unsub = wb.clone();
 
-    let (mut rx, _) = wb
+    let (mut rx, _) = match wb
         .psubscribe(client_id, transaction_id, key, unique, live_only)
-        .await?;
+        .await
+    {
+        Ok(it) => it,
+        Err(e) => {
+            wb.disconnected(client_id, Some(remote_addr)).await.ok();
+            return Err(e);
+        }
+    };
 
     let (sse_tx, sse_rx) = mpsc::channel(100);
 
